@@ -147,7 +147,7 @@ def ensure_facts(tier='quick'):
     return outdir, [n for (n, _, _) in tus]
 
 
-def _gc_cache(cache_root, keep, max_entries=6):
+def _gc_cache(cache_root, keep, max_entries=40):
     try:
         ents = [(os.path.getmtime(os.path.join(cache_root, d)), d)
                 for d in os.listdir(cache_root) if d != keep]
@@ -286,8 +286,8 @@ class Verdict:
             with open(path, 'w') as f:
                 json.dump(new, f, indent=1)
             for v in new:
-                print('  violated: [%s] %s — %s %s' % (v['rule'], v['instance'], v['detail'],
-                                                         ('@' + v['where']) if v['where'] else ''))
+                print('  violated: [%s] %s — %s %s key=%s' % (v['rule'], v['instance'], v['detail'],
+                                                                ('@' + v['where']) if v['where'] else '', v['key']))
             print('VIOLATION property=%s replay=%s' % (self.prop, path))
             return 1
         print('%s: %d obligations discharged over %d functions (%d rule kinds) in %.1fs'
